@@ -13,6 +13,12 @@ CHECKS = {
     text="TLC proves on the model that each of the 324 ordered pairs of colour types has a terminating route made of hand-written edges (the search of find_nearest_color is transcribed step by step) and predicts which typed pairs exist; the prediction is compared with the compile-time existence matrix of the harness. All ordered pairs of 19 typed nodes (f32 and f64) are then executed as round trips A->B->A, as triangles A->C versus A->B->C through five hub spaces, and with alpha attached; TLC requires the XYZ image of the colour to be invariant under every hop (tolerance relative to the vector, 2^-40 in f64 for routes that avoid the 7-digit RGB matrices, 2^-19 otherwise, 2^-15 in f32), the round trip to return the start coordinates, alpha and colour to be bit-identical with and without alpha.",
     ref="DESIGN.md section 4 C01",
     note=TRUST + "; the code's own direct conversion to Xyz is the abstraction function (a defect common to all routes is C02's business); start colours are inside the sRGB gamut by a margin for walks through gamut-bounded spaces; other RGB standards and white points than sRGB/D65 are not yet driven; known finding C01-oklab-direct-vs-xyz-route"),
+ "C02": dict(
+    technique="published definitions as exact relations in TLA+ (ColourMath.tla, reference constants with citations, 104-bit fixed point, cube instead of cube root, cross-multiplication, series only for sine/cosine); TLC self-check of the reference (MC_ColourMath); TLC trace validation of every recorded conversion along a hand-written edge (TraceMath.tla)",
+    category="model_checking",
+    text="30 directed hand-written edges - linear sRGB<->XYZ (matrix derived in the spec from the IEC primaries and D65), XYZ<->L*a*b*, L*u*v*, xyY, Oklab (Ottosson's M1/M2 and the direct linear-sRGB matrices; CSS Color 4's recalculated M1 also accepted), the three polar forms, RGB<->HSV/HSL, HSV<->HSL, HSV<->HWB, Okhsv<->Okhwb, XYZ<->luma - are run on lattices, on points straddling every piecewise threshold (the join of f(t) per channel, L*=8, hue sector edges, RGB ties) and on random points for f32 and f64; TLC measures on the exact recorded values how many bits input and output agree with the defining equation and requires 44 bits in f64 (17 in f32) for the exact formulas, 19 bits across palette's 7-digit RGB matrices and 18 for Oklab (limits of the publications).",
+    ref="DESIGN.md section 4 C02 and section 5",
+    note=TRUST + "; reference constants and formulas in spec/ColourMath.tla; thresholds in TraceMath.tla (calibrated, >= 16x margin); not decided here: Oklab<->Okhsl/Okhsv against Ottosson's numerical procedure, Lchuv<->HSLuv bounds, transfer curves (decided by C05's Transfer relation), other RGB standards and white points than sRGB/D65, CAM16 (C16)"),
  "C03": dict(
     technique="TLA+ bounds contract (Bounds.tla, documented table in Types.tla); TLC proves the contract on a lattice model; TLC trace validation of clamp / clamp_assign / slice / is_within_bounds / from_color / try_from_color events with exact dyadic arithmetic",
     category="model_checking",
